@@ -253,7 +253,7 @@ func (e *Exec) resetPath() {
 	e.utf8ok = map[*Term]*Term{}
 	e.atomVCs = nil
 	e.probes = nil
-	e.solver.Reset()
+	e.solver.StartPath(e.shared)
 }
 
 func (e *Exec) worker(wg *sync.WaitGroup) {
@@ -270,6 +270,7 @@ func (e *Exec) worker(wg *sync.WaitGroup) {
 			e.trail = append(e.trail, decision{chosen: c})
 		}
 		e.fixed = len(prefix)
+		e.shared = -1
 		for {
 			if atomic.LoadInt32(&sh.stop) != 0 {
 				return
@@ -294,6 +295,7 @@ func (e *Exec) worker(wg *sync.WaitGroup) {
 			if !e.backtrack() {
 				break
 			}
+			e.shared = len(e.trail) - 1
 		}
 	}
 }
@@ -323,6 +325,8 @@ func (e *Exec) finishedPath(pe pathEnd) {
 	case "unwind":
 		e.st.Unwind++
 		e.sh.addNote("unwinding failure: " + pe.msg)
+	case "inconclusive":
+		e.sh.addNote("inconclusive: " + pe.msg)
 	case "internal":
 		e.st.Internal++
 		e.sh.addNote("internal: " + pe.msg)
